@@ -81,6 +81,14 @@ def answer : List String → String
     match parseRat? m, parseRatList? common, parseRatList? fb, parseRatList? ft, parseRatList? cb, parseRatList? ct with
     | some m, some common, some fb, some ft, some cb, some ct => showOpt (showList showRat) (decusp m common fb ft cb ct)
     | _, _, _, _, _, _ => "bad-op"
+  -- setheightc <hOld> <hNew> <areas> <nds with _> <caches with _>: one nuclide, component by component
+  | ["setheightc", hOld, hNew, areas, nds, caches] =>
+    match parseRat? hOld, parseRat? hNew, parseRatList? areas, parseList? parseOptRat? nds, parseList? parseOptRat? caches with
+    | some hOld, some hNew, some areas, some nds, some caches =>
+      if areas.length ≠ nds.length ∨ nds.length ≠ caches.length ∨ hNew = 0 then "bad-op" else
+      let cs : List VComp := (List.zip areas (List.zip nds caches)).map (fun x => { area := x.1, nd := x.2.1, cache := x.2.2 })
+      showList (fun c : VComp => match c.nd with | some v => showRat v | none => "_") (setHeightOne hOld hNew cs)
+    | _, _, _, _, _ => "bad-op"
   | ["setheight", hOld, hNew, cons, adjust, ids, nds] =>
     match parseRat? hOld, parseRat? hNew, parseBool? cons, parseNatList? adjust, parseNatList? ids, parseRatList? nds with
     | some hOld, some hNew, some cons, some adjust, some ids, some nds =>
